@@ -41,9 +41,10 @@ def plan(tier, seed):
              'seed': seed * 1000 + 280 + i} for i in range(6)]
 
 
-INTS = [0, 1, -1, 7, 42, -300, 10 ** 9, 2 ** 40, -2 ** 31]
-FRACS = [0.5, -1.25, 3.14159, 0.1 + 0.2, 1e-5, 2.5e10 + 0.5, -0.75, 1 / 3.0]
-INTEGRAL_FLOATS = [0.0, 1.0, -2.0, 100.0, 1e15, -4096.0, 3.0]
+INTS = [0, 0, 1, -1, 7, 42, -300, 10 ** 9, 2 ** 40, -2 ** 31, 2 ** 63 - 1, -2 ** 63]
+FRACS = [0.5, -1.25, 3.14159, 0.1 + 0.2, 1e-5, 2.5e10 + 0.5, -0.75, 1 / 3.0, float('inf'), 1e-300, 123456789.125]
+INTEGRAL_FLOATS = [0.0, 1.0, -2.0, 100.0, 1e15, -4096.0, 3.0, 0.0, 1e16, 2.0 ** 63, -2.0 ** 63, 1e20, -1e19,
+                   1e300, 2.0 ** 53 + 2, -0.0]
 
 
 def make_values(rng, kind, pattern):
